@@ -169,3 +169,76 @@ edges_between_placements = FunctionContract(
             ("graph_out.add_edge(out_idx, out_jdx)", "graph_out.add_edge(out_idx, out_idx)")],
 )
 CONTRACTS.append(edges_between_placements)
+
+
+# ------------------------------------------------------------------ do_mapping: attributes of a particle with a reference atom
+ANameT, ValT = TKey('AName'), TKey('Val')
+AMap = TMap(ANameT, ValT)
+
+
+def setup_ref_attrs(cx):
+    eng = cx.eng
+    from pyvc.builtins import getitem, setitem, contains
+    old_ = cx.uf('old_', [ANameT], ANameT)                       # "_old_" + attr
+    a_, b_ = z3.Const('a', ANameT.sort()), z3.Const('b', ANameT.sort())
+    cx.assume(z3.ForAll([a_, b_], z3.Implies(old_(a_) == old_(b_), a_ == b_)))
+    eng.concat_hooks[('_old_', 'AName')] = lambda e, v: SV(ANameT, old_(v.e))
+    NODE = cx.heap('NODE', cx.box('NODE', AMap))                 # graph_out.nodes[out_idx]
+    new_attrs = cx.val('new_attrs', AMap)                        # attrs_from_node(reference atom, keep + must + stash)
+    cx.spec_env['NA'] = new_attrs
+    keep_s, stash_s = cx.val('keep_set', TSet(ANameT)), cx.val('stash_set', TSet(ANameT))
+
+    def names(sv):
+        # a tuple of attribute names: membership, and concatenation with the other tuples (only passed on to attrs_from_node)
+        o = Obj('attrnames')
+        o.attrs['__contains__'] = Builtin(lambda e, a: contains(e, sv, a), 'in')
+        o.attrs['__add__'] = Builtin(lambda e, other: cat, '+')
+        return o
+    cx.spec_env['attrs_from_node'] = Builtin(lambda e, node, attrs: new_attrs, 'attrs_from_node')
+    gnodes = Obj('NodeView', __getitem__=Builtin(lambda e, k: NODE, 'graph_out.nodes[]'))
+    mnodes = Obj('NodeView', __getitem__=Builtin(lambda e, k: Obj('atom'), 'molecule.nodes[]'))
+    allrefs = Obj('all_references', __getitem__=Builtin(lambda e, k: Obj('ref_idx'), 'all_references[]'))
+
+    class Tup:
+        pass
+    cat = Obj('attrlist')
+    cat.attrs['__add__'] = Builtin(lambda e, o: cat, '+')
+    return dict(graph_out=Obj('Graph', nodes=gnodes), molecule=Obj('Molecule', nodes=mnodes), all_references=allrefs,
+                out_idx=cx.val('out_idx', TInt), attribute_keep=names(keep_s), attribute_must=cat, attribute_stash=names(stash_s))
+
+
+SPEC_RA = {
+    'N0': "lambda: old(NODE)",
+    'taken': "lambda a: a in NA and (a in attribute_keep or not (a in N0()))",
+    'stashed_as': "lambda k: exists(lambda a: a in NA and a in attribute_stash and k == old_(a), AName)",
+}
+ref_attrs = FunctionContract(
+    F, 'do_mapping', 'C01', short='do_mapping[attributes from the reference atom]', setup=setup_ref_attrs, spec_defs=SPEC_RA,
+    spec_env=dict(AName=ANameT, Val=ValT),
+    region=dict(within=["for out_idx in out_to_mol:", "if out_idx in all_references:"], start="ref_idx = all_references[out_idx]"),
+    requires=[
+        # a stashed copy never lands on one of the attributes that are being transferred
+        "forall(lambda a, b: implies(a in NA and b in NA, old_(a) != b), AName, AName)",
+    ],
+    ensures=[
+        # an attribute to keep - or one the particle does not have yet - is taken from the reference atom; every other
+        # attribute of the particle stays as the block defined it (in particular the renumbered resid)
+        "forall(lambda a: implies(taken(a), a in NODE and NODE[a] == NA[a]), AName)",
+        "forall(lambda a: implies(a in NA and not taken(a), a in NODE and NODE[a] == N0()[a]), AName)",
+        # attributes to stash are also stored as _old_<name>
+        "forall(lambda a: implies(a in NA and a in attribute_stash, old_(a) in NODE and NODE[old_(a)] == NA[a]), AName)",
+        # nothing else changes
+        "forall(lambda k: implies(not (k in NA) and not stashed_as(k), (k in NODE) == (k in N0()) and implies(k in NODE, NODE[k] == N0()[k])), AName)",
+    ],
+    modifies=['NODE'],
+    loops={'L1': LoopSpec(inv=[
+        "forall(lambda a: implies(a in NA and posof(NA, a) < _i and taken(a), a in NODE and NODE[a] == NA[a]), AName)",
+        "forall(lambda a: implies(a in NA and (posof(NA, a) >= _i or not taken(a)), (a in NODE) == (a in N0()) and implies(a in NODE, NODE[a] == N0()[a])), AName)",
+        "forall(lambda a: implies(a in NA and posof(NA, a) < _i and a in attribute_stash, old_(a) in NODE and NODE[old_(a)] == NA[a]), AName)",
+        "forall(lambda k: implies(not (k in NA) and not exists(lambda a: a in NA and posof(NA, a) < _i and a in attribute_stash and k == old_(a), AName), "
+        "   (k in NODE) == (k in N0()) and implies(k in NODE, NODE[k] == N0()[k])), AName)"],
+        modifies=['NODE'])},
+    canary=[("graph_out.nodes[out_idx][attr] = val", "graph_out.nodes[out_idx].update(new_attrs)"),
+            ("if attr in attribute_stash:", "if attr in attribute_keep:")],
+)
+CONTRACTS.append(ref_attrs)
